@@ -191,13 +191,15 @@ type Result struct {
 	ProxyC  ClientT `json:"proxied_client"`
 	// WebSocket scripts: the same client against the locally registered
 	// implementation
-	LocalB  *BackT   `json:"local_backend,omitempty"`
-	LocalC  *ClientT `json:"local_client,omitempty"`
-	Diffs   []Diff   `json:"diffs,omitempty"`
-	Incon   string   `json:"inconclusive,omitempty"`
-	Dump    string   `json:"larking_goroutines,omitempty"`
-	DirectT string   `json:"direct_time"`
-	ProxyT  string   `json:"proxied_time"`
+	LocalB *BackT   `json:"local_backend,omitempty"`
+	LocalC *ClientT `json:"local_client,omitempty"`
+	// compression-fault lane: the fault call that preceded this script
+	AfterFault *ZCase `json:"after_compression_fault,omitempty"`
+	Diffs      []Diff `json:"diffs,omitempty"`
+	Incon      string `json:"inconclusive,omitempty"`
+	Dump       string `json:"larking_goroutines,omitempty"`
+	DirectT    string `json:"direct_time"`
+	ProxyT     string `json:"proxied_time"`
 }
 
 var reGoroutine = regexp.MustCompile(`(?m)^goroutine \d+ \[`)
@@ -629,6 +631,11 @@ func setup(r *mon.Run) {
 		"the deadline the back-end handler's context carries (none / <1 min / >=1 min buckets; scripts use none, ten seconds, five minutes) on the gRPC and gRPC-web fronts. " +
 		"\"-bin\" metadata of every length 0-9, single and multi-valued, in both base64 spellings (unpadded / padded) on the raw fronts. " +
 		"Compression values: absent, gzip, identity announced explicitly (gRPC, gRPC-web). " +
+		"Compression faults: calls whose message k (first, or after 1-2 well-formed compressed messages) is a frame flagged compressed that cannot be inflated " +
+		"(gzip stream cut inside its trailer / inside the deflate data, flipped CRC / ISIZE bit, inverted data byte, bytes after the stream, plain bytes, zero length, a stream that inflates beyond the 4 MiB receive limit " +
+		"or beyond the limit of the small front only; broken messages of 60 B / 3 KB / 40 KB with every field set), sent by a raw h2c client to the back-end and through larking (gRPC and gRPC-web, every shape): " +
+		"a call the back-end's own server refuses must not end OK through larking and the back-end gets nothing but the well-formed messages; each fault call is followed by three ordinary compressed scripts " +
+		"(any plan structure with 1-3 messages, drawn attributes) executed both ways and compared as usual, eight such rounds at a time (scratch buffers and (de)compressors of the front are process-wide). " +
 		"Each script runs twice (direct / through larking); distinct = front x shape x plan family x message count x outcome x half-close-seen x metadata class."
 	r.Floor = 40
 	r.Assume("grpc-go client/server (direct run) define the reference behaviour of a call script")
@@ -827,6 +834,7 @@ func RunC10(r *mon.Run) {
 		}
 	}
 	runBodyCases(r, e)
+	runZFaultCases(r, e)
 	finish(r, e)
 }
 
@@ -836,6 +844,8 @@ func Replay(r *mon.Run, raw json.RawMessage) {
 	var doc struct {
 		Script *Script   `json:"script"`
 		Body   *BodyCase `json:"body_case"`
+		Fault  *ZCase    `json:"compression_fault"`
+		After  *ZCase    `json:"after_compression_fault"`
 	}
 	if err := json.Unmarshal(raw, &doc); err == nil && doc.Body != nil {
 		e, err := NewEnv()
@@ -845,6 +855,21 @@ func Replay(r *mon.Run, raw json.RawMessage) {
 		}
 		defer e.Close()
 		reportBody(r, e, *doc.Body, "replay1")
+		finish(r, e)
+		return
+	}
+	if err := json.Unmarshal(raw, &doc); err == nil && (doc.Fault != nil || (doc.After != nil && doc.Script != nil)) {
+		e, err := NewEnv()
+		if err != nil {
+			r.Inconclusive("cannot start back-end / front: " + err.Error())
+			return
+		}
+		defer e.Close()
+		if doc.Fault != nil {
+			replayFault(r, e, *doc.Fault, nil)
+		} else {
+			replayFault(r, e, *doc.After, doc.Script)
+		}
 		finish(r, e)
 		return
 	}
